@@ -349,6 +349,8 @@ def run(ctx):
             c = t.get("callee") or {}
             if c.get("unsafe") and not t["loc"].get("exp"):
                 n_ops += 1
+                if c.get("local") and c["path"] in prog.fns and c["path"].startswith("ffi::") and not prog.fns[c["path"]].get("no_mangle"):
+                    continue                    # a private unsafe helper of the shim: its own body is examined by this same loop
                 if c["path"] not in ALLOWED_UNSAFE:
                     r5.violation("op:%s@%s" % (c["path"].split("::")[-1], k.split("::")[-1]), "unsafe operation %s is not one of the enumerated handle/string conversions" % c["path"],
                                  site_of(b, bb))
